@@ -51,6 +51,8 @@ func deduceMsgType(msg interface{}, typ reflect.Type) MessageType {
 		if gogo.MessageName(gogoMsg) != "" {
 			return MessageTypeGogo
 		}
+		return MessageTypeGoogleV1
 	}
-	return MessageTypeGoogleV1
+	// not a Protobuf message of any supported runtime
+	return MessageTypeUnknown
 }
